@@ -21,6 +21,12 @@ import vlib
 SIGNALS = ["logs", "traces", "metrics", "profiles"]
 BYTES_CLASS = {0: 0, 1: 120, 2: 500, 3: 1500, 4: 4000}     # max_size classes of the generator -> bytes
 KNOWN_PROFILE = "SizeBound: profiles are not split below one profile (the part is one whole profile holding several samples)"
+KNOWN_DESCRIPTOR = ("Identity: metrics, the split-off part of a metric has an empty descriptor (name/unit/description/metadata "
+                    "empty, temporality/monotonicity default) and nothing else of its context differs")
+KNOWN_SHELL = ("SizeBound: metrics, bytes sizer, the oversized part carries an unnamed metric shell without data points "
+               "(left by an extraction that took no data point)")
+KNOWN_ATTACH = ("DoneErrIff: request reported failed although no part holding its data failed; the failed part is the first "
+                "result of the MergeSplit with the held batch and holds no item of the request")
 
 
 def tla_set(xs):
@@ -37,8 +43,13 @@ ParamBigMax   == %d
 """ % (n, tla_set(map(str, shapes)), tla_set('<<"%s", %d>>' % c for c in confs), bigmax)
 
 
-def mc_cfg(**kw):
+def mc_cfg(Inv=None, **kw):
+    """BatcherMC.cfg (the tree as it is: oversized item sent alone, callback attached unconditionally, invariant
+    PropertyKnown = Inv \\/ KnownPredicate of the open finding C04-done-first-part) with constants / invariant replaced"""
     base = open(os.path.join(vlib.VERIF, "specs/Batcher/BatcherMC.cfg")).read()
+    if Inv:
+        base, n = re.subn(r"(?m)^INVARIANT \w+$", "INVARIANT " + Inv, base)
+        assert n == 1
     for k, v in kw.items():
         base, n = re.subn(r"(?m)^  %s = .*$" % k, "  %s = %s" % (k, v), base)
         assert n == 1, k
@@ -127,6 +138,56 @@ def explain(ctxd, got, want):
     return "; ".join(diffs) or "%s vs %s" % (g, w)
 
 
+def ctx_groups(canon):
+    return dict(re.findall(r"(\w+)\{(.*?)\}(?= \w+\{|$)", canon))
+
+
+def descriptor_only_loss(ctxd, triples):
+    """every item of the part whose context differs lost exactly the metric descriptor: resource, scope and the data point
+    itself are as entered, the metric type is kept, and name/unit/description/metadata are empty with temporality and
+    monotonicity at their defaults"""
+    if not triples:
+        return False
+    for _id, got, want in triples:
+        g, w = ctx_groups(ctxd.get(got, "")), ctx_groups(ctxd.get(want, ""))
+        if not g or set(g) != set(w) or "metric" not in g:
+            return False
+        if any(g[k] != w[k] for k in g if k != "metric"):
+            return False
+        mg = re.match(r'name="(.*)" unit="(.*)" description="(.*)" type=(\w+) temporality=(\S+) monotonic=(\S+) metadata=(.*)$', g["metric"])
+        mw = re.match(r'name="(.*)" unit="(.*)" description="(.*)" type=(\w+) temporality=(\S+) monotonic=(\S+) metadata=(.*)$', w["metric"])
+        if not mg or not mw or mg.group(4) != mw.group(4):
+            return False
+        if (mg.group(1), mg.group(2), mg.group(3), mg.group(7)) != ("", "", "", "{}"):
+            return False
+        if mg.group(5) not in ("-", "Unspecified") or mg.group(6) not in ("-", "false"):
+            return False
+    return True
+
+
+def rider_shape(events, done_line, r):
+    """DoneErrIff signature: among the events of the script up to the done event of request r, a FAILED export call k that
+    holds no item and no container of r, was started after r was handed in, and is immediately followed by the first part
+    that holds items of r (= the first result of the MergeSplit of the held batch with r); no part with data of r failed."""
+    mine = lambda e: any(it["id"] // 1000 - 100 == r for it in e["items"])
+    consumed = None
+    emits, failed = [], set()
+    for i, e in enumerate(events[:done_line]):
+        if e["ev"] == "consume" and e["req"] == r:
+            consumed = i
+        elif e["ev"] == "emit":
+            emits.append((i, e))
+        elif e["ev"] == "emit_end" and not e["ok"]:
+            failed.add(e["k"])
+    if consumed is None or any(e["k"] in failed and (mine(e) or r in e.get("reqs", [])) for _, e in emits):
+        return False
+    first = next((n for n, (_, e) in enumerate(emits) if mine(e)), None)
+    if first is None or first == 0:
+        return False
+    i, prev = emits[first - 1]
+    return prev["k"] in failed and i > consumed and not mine(prev) and r not in prev.get("reqs", [])
+
+
 def one_whole_profile(s, ids):
     """is the part exactly one profile (several samples) of one request?  ids are (100+k)*1000+j"""
     if s["signal"] != "profiles" or len(ids) < 2:
@@ -187,6 +248,8 @@ def report(c, scripts, results, viol, ctxd, trace_path):
             if cl == "Identity" and v["detail"]:
                 d = v["detail"][0]
                 what = head + ": item %s -- %s" % (d[0], explain(ctxd, d[1], d[2]))
+                if s["signal"] == "metrics" and descriptor_only_loss(ctxd, v["detail"]):
+                    sig = KNOWN_DESCRIPTOR
             elif cl == "Terminates":
                 r = results.get(sid, {})
                 if not r.get("confirmed") and "hang" in r:
@@ -199,6 +262,17 @@ def report(c, scripts, results, viol, ctxd, trace_path):
                 if one_whole_profile(s, ids):
                     sig = KNOWN_PROFILE
                     what += " (one whole profile)"
+                elif s["signal"] == "metrics" and s["sizer"] == "bytes" and ev.get("shells", 0) > 0:
+                    sig = KNOWN_SHELL
+                    what += " (the part carries %d unnamed metric shell(s) without data points)" % ev["shells"]
+            elif cl == "DoneErrIff":
+                what = head + ": " + json.dumps(v["detail"])[:300]
+                r, err = v["detail"][0], v["detail"][1]
+                start = max(i for i in range(v["line"]) if '"ev":"reset"' in lines[i])
+                evs = [json.loads(x) for x in lines[start:v["line"]]]
+                if err and not v["detail"][2] and rider_shape(evs, len(evs) - 1, r):
+                    sig = KNOWN_ATTACH
+                    what += " (the failed part before its first part carried its callback without any of its data)"
             else:
                 what = head + ": " + json.dumps(v["detail"])[:300]
             seen[key] = seen.get(key, 0) + 1
@@ -219,16 +293,23 @@ def run(c):
                 dict(Reqs='{"r1", "r2", "r3", "r4"}', Sizer='"bytes"', MaxSize=2, MinSize=1), dict(MaxSize=4, MinSize=4, CanFail="FALSE")]
     for i, kw in enumerate(mcs):
         c.tlc_must_pass("Batcher", "BatcherMC", cfg_text=mc_cfg(**kw), coverage=(i == 0), timeout=900, label="design%d" % i)
+    # non-vacuity 1: the pinned MergeSplit (an oversized item is never extracted) must violate Terminates
     hang = c.tlc("Batcher", "BatcherMC", cfg_text=mc_cfg(Sizer='"bytes"', MaxSize=3, MinSize=2, Oversized='"hang"'), timeout=300,
                  label="design_hang", count=False)
-    if hang.ok or hang.error != ("invariant", "Property"):
+    if hang.ok or hang.error != ("invariant", "PropertyKnown"):
         raise vlib.Inconclusive("the model of the non-terminating MergeSplit does not violate Terminates: %s" % (hang.error,))
-    c.extra["design_hang_model"] = "Oversized=hang violates Property (Terminates) after %d states, as it must" % hang.distinct
-    att = c.tlc("Batcher", "BatcherMC", cfg_text=mc_cfg(Reqs='{"r2", "r5", "r1"}', Sizer='"bytes"', MaxSize=3, MinSize=2,
-                                                         AttachFirst='"always"'), timeout=300, label="design_attach", count=False)
+    c.extra["design_hang_model"] = "Oversized=hang violates PropertyKnown (Terminates) after %d states, as it must" % hang.distinct
+    # open finding C04-done-first-part at design level: the tree's variant (AttachFirst = "always") must reach the known
+    # predicate, i.e. violate the plain Property (DoneErrIff); the repaired variant ("ifgrew") must satisfy it
+    rid = dict(Reqs='{"r2", "r5", "r1"}', Sizer='"bytes"', MaxSize=3, MinSize=2)
+    att = c.tlc("Batcher", "BatcherMC", cfg_text=mc_cfg(Inv="Property", **rid), timeout=300, label="design_attach", count=False)
     if att.ok or att.error != ("invariant", "Property"):
         raise vlib.Inconclusive("the model of the unconditional callback attachment does not violate DoneErrIff: %s" % (att.error,))
-    c.extra["design_attach_model"] = "AttachFirst=always violates Property (DoneErrIff) after %d states, as it must" % att.distinct
+    c.extra["design_attach_model"] = "AttachFirst=always violates the plain Property (DoneErrIff) after %d states" % att.distinct
+    if c.match_finding(KNOWN_ATTACH) is not None:       # a counterexample of the model alone is never a violation
+        c.violation("design level: DoneErrIff is reachable in Batcher.tla with AttachFirst=always", signature=KNOWN_ATTACH)
+    c.tlc_must_pass("Batcher", "BatcherMC", cfg_text=mc_cfg(Inv="Property", AttachFirst='"ifgrew"', **rid), timeout=300,
+                    label="design_repaired")
     binp = c.go_build("batcher", pkg="./cmd")
     lib = shapes_lib(c)
 
